@@ -18,13 +18,19 @@ class AnalysisError(Exception):
 
 
 class Module(object):
-    def __init__(self, rel, path):
+    def __init__(self, rel, path, text=None, sha=None):
         self.rel = rel
         self.path = path
-        with open(path, 'rb') as f:
-            raw = f.read()
-        self.sha = hashlib.sha256(raw).hexdigest()
-        self.src = raw.decode('utf-8')
+        if text is None:
+            with open(path, 'rb') as f:
+                raw = f.read()
+            self.sha = hashlib.sha256(raw).hexdigest()
+            self.src = raw.decode('utf-8')
+        else:
+            # canonicalised text (see Repo._canonicalise); the digest stays
+            # that of the file on disk
+            self.sha = sha
+            self.src = text
         try:
             self.tree = ast.parse(self.src, filename=path)
             compile(self.src, path, 'exec', dont_inherit=True)
@@ -95,7 +101,7 @@ def dotted(node):
 
 
 class Repo(object):
-    def __init__(self, root=None):
+    def __init__(self, root=None, canonical=True):
         self.root = root or REPO_ROOT
         self.pkgdir = os.path.join(self.root, PKG)
         if not os.path.isdir(self.pkgdir):
@@ -110,6 +116,61 @@ class Repo(object):
                     path = os.path.join(dirpath, fn)
                     rel = os.path.relpath(path, self.root)
                     self.mods[rel] = Module(rel, path)
+        self.canonicalised = []
+        if canonical and os.environ.get('PGSA_NO_CANONICAL') != '1':
+            self._canonicalise()
+
+    def _canonicalise(self):
+        """Analysis modulo normal-form equivalence: a function whose text
+        differs from its reviewed text but which is the same function in
+        strict normal form (refcmp.strict_equivalent) is analysed through
+        its reviewed text -- the representative of its equivalence class.
+        Rules that look at syntax (names of locals, statement shapes, counts
+        of loops) are thereby insensitive to behaviour-preserving rewrites,
+        while any rewrite that is not proved equivalent is analysed as
+        written."""
+        import textwrap
+        from . import reviewed, refcmp
+        store = reviewed.store()
+        for rel in sorted(self.mods):
+            m = self.mods[rel]
+            subs = []
+            cands = []
+            for node in m.tree.body:
+                if isinstance(node, ast.FunctionDef):
+                    cands.append(node)
+                elif isinstance(node, ast.ClassDef):
+                    last = {}
+                    for x in node.body:
+                        if isinstance(x, ast.FunctionDef):
+                            last[x.name] = x
+                    cands.extend(last.values())
+            for node in cands:
+                ent = store.get('%s::%s' % (rel, node._qual))
+                if ent is None:
+                    continue
+                try:
+                    ref = ast.parse(textwrap.dedent(ent['source'])).body[0]
+                except SyntaxError:
+                    continue
+                if not isinstance(ref, ast.FunctionDef):
+                    continue
+                # decorators are not part of the stored text
+                ref.decorator_list = node.decorator_list
+                if ast.dump(ref) == ast.dump(node):
+                    continue
+                if refcmp.strict_equivalent(node, ref):
+                    subs.append((node, ent['source']))
+            if not subs:
+                continue
+            lines = m.src.splitlines()
+            for node, text in sorted(subs, key=lambda x: -x[0].lineno):
+                new = textwrap.indent(textwrap.dedent(text).rstrip('\n'),
+                                      ' ' * node.col_offset).splitlines()
+                lines[node.lineno - 1:node.end_lineno] = new
+                self.canonicalised.append('%s::%s' % (rel, node._qual))
+            self.mods[rel] = Module(rel, m.path, text='\n'.join(lines) + '\n',
+                                    sha=m.sha)
 
     # -- access with anchor checking ------------------------------------
     def mod(self, rel):
